@@ -1014,7 +1014,8 @@ def gen_c16(rnd, n, thorough=False):
                 gname = 'g/x%d.wsp' % len(lines)
                 glay = [(1, 6), (3, 4)] if to != 'full' else [(1, 300), (5, 100)]
                 lines.append("cligenerate dest=%s m=%d x=%08x layout=%s max=%d fill=%d%s" % (gname, m, xff, lay_csv(glay), rnd.pick([10, 10, 10, 0, -1, -7]), 1 if to == 'full' else rnd.pick([1, 1, 0]), t))
-                lines.append("hdrof %s" % gname)
+                if to not in ('bad', 'full'):
+                    lines.append("hdrof %s" % gname)          # (what a generate whose report cannot be written leaves behind is not promised)
         cases.append({'id': 'c16-%d' % c, 'lines': lines, 'tags': {'layout': lname, 'src': srckind, 'dest': destkind, 'sub': hist}})
         if c == 1:
             cases.append(many_files_case(rnd, 'c16-%d-many' % c, ['sum', 'sumcopy', 'sumdiff']))     # (sum-diff after sum-copy: with a missing destination AND an unreadable source, which of the two concurrent failures is reported is not determined)
